@@ -238,7 +238,10 @@ def extract_helpers(client_src):
                 rs = ast.unparse(ret.value) if ret else ""
                 if rs != "m.groupdict() if m else {}":
                     raise ValueError(f"unexpected return of {fn.name}: {rs}")
-                h[fn.name] = {"regex": call.args[0].value}
+                h[fn.name] = {"regex": call.args[0].value, "decorators": [ast.unparse(d) for d in fn.decorator_list],
+                              "src": ast.unparse(ast.FunctionDef(name=fn.name, args=fn.args, body=fn.body, returns=None, type_comment=None,
+                                                                 decorator_list=[d for d in fn.decorator_list if ast.unparse(d) != "staticmethod"],
+                                                                 lineno=0, col_offset=0))}
             else:
                 call = ret.value if ret else None
                 if not (isinstance(call, ast.Call) and isinstance(call.func, ast.Attribute) and call.func.attr == "format"
@@ -542,6 +545,23 @@ def run_e2e(ctx, n):
                     if got and b["fmt"].format(**got) != built:
                         ctx.violation(f"service {svc}: {base}_path(parse_{base}_path({built!r})) != {built!r}", case)
                         break
+                    # the emitted parse helper itself, called twice around a mutation of its first result (a caller may edit the
+                    # dict it got; the second parse of the same string must not see that)
+                    if "src" in p:
+                        try:
+                            ns = {}
+                            exec("import re, functools\nfrom typing import Dict, Optional\n" + p["src"], ns)
+                            fnp = ns["parse_" + base + "_path"]
+                            d1 = fnp(built); keep = dict(d1); d1["__edited__"] = "x"; d1.update({k: "edited" for k in list(keep)})
+                            d2 = fnp(built)
+                            e1 = fnp("\x00 no such path"); e1["__edited__"] = "x"; e2 = fnp("\x00 no such path")
+                        except Exception as e:  # noqa
+                            ctx.violation(f"service {svc}: emitted parse_{base}_path could not be executed on {built!r}: {type(e).__name__}: {e}", case)
+                            break
+                        if keep != kv or d2 != kv or e2 != {}:
+                            ctx.violation(f"service {svc}: parse_{base}_path({built!r}) returned {keep} then, after the caller edited that dict, {d2}; "
+                                          f"a non-matching string parsed to {e2} on the second call", case)
+                            break
                 P = coq.s(pat)
                 checks.append((f"e2e#{i} {svc}.{base}_path args", f"list_eqb String.eqb (args (tokenize {P})) {coq.slist(b['args'])}"))
                 checks.append((f"e2e#{i} {svc}.{base}_path kwargs", f"list_eqb String.eqb (args (tokenize {P})) {coq.slist(b['kw'])}"))
